@@ -325,8 +325,14 @@ def domainsByAddr (π : Orders) (rd : RD) : DBA := (pull π.dom rd).foldl dbaSte
 
 def isCatchAllDomains (doms : List Name) : Bool := decide (doms = [0])
 
+/-- the redirect route for listener address `a`.  Its host matcher is PROVISIONED (fix "provision
+    the host matcher of the automatic HTTP->HTTPS redirect route"): repeated names are dropped
+    first (the code compares them case-insensitively; the names of a case are pairwise distinct
+    ignoring case — the driver rejects anything else — so that is dropping repeated indices),
+    then `MatchHost.Provision` lower-cases and sorts the entries of a large list; the model keeps
+    the host list as a set of name indices, which neither changes. -/
 def mkRedirRoute (c : Config) (a : Addr) (doms : List Name) : Route :=
-  Route.redir (if isCatchAllDomains doms then none else some doms) (portRule c a.sp)
+  Route.redir (if isCatchAllDomains doms then none else some (doms.foldl addSet [])) (portRule c a.sp)
 
 def rsStep (c : Config) (m : RS) (ad : Addr × List Name) : RS :=
   assocAppend m (redirAddr c ad.1) (mkRedirRoute c ad.1 ad.2)
